@@ -753,15 +753,18 @@ def set_cases(E, ctx):
         HM.unfold_wf_deep(E, Dn)
         return [("view", mk_bool(HM.hlk(Dn, q) == hview_after_set(Dold, K, V, q))),
                 ("never-blank", mk_bool(z3.Not(HNode.is_HBlank(Dn)))),
+                ("a-branch-stays-a-branch", mk_bool(z3.Implies(HNode.is_HBranch(Dold), HNode.is_HBranch(Dn)))),
                 ("well-formed", mk_bool(HM.hwfp(Dn)))]
 
     def make():
         Dn = z3.Const(E.fresh_name("_set.D"), HNode)
-        E.assume(mk_bool(z3.And(HM.hwfp(Dn), z3.Not(HNode.is_HBlank(Dn)))))
+        E.assume(mk_bool(z3.And(HM.hwfp(Dn), z3.Not(HNode.is_HBlank(Dn)),
+                                z3.Implies(HNode.is_HBranch(Dold), HNode.is_HBranch(Dn)))))
         HM.unfold_wf(E, Dn)
         E.ghost.setdefault("hview_rules2", []).append(
             (Dn, lambda Q: HM.hlk(Dn, Q) == hview_after_set(Dold, K, V, Q), Dold))
         if isinstance(ctx.node, ListObj):
+            ctx.node.poison_len = len(ctx.node.items) if ctx.node.items is not None else None
             ctx.node.items = None            # the argument list may have been modified in place: it must not be read again
             ctx.node.seq = None
         return HM.materialize(E, Dn)
@@ -934,6 +937,7 @@ def del_cases(E, ctx):
         HM.unfold_wf(E, Dn)
         E.ghost.setdefault("hview_rules2", []).append((Dn, lambda Q: HM.hlk(Dn, Q) == hview_after_del(Dold, K, Q), Dold))
         if isinstance(ctx.node, ListObj):
+            ctx.node.poison_len = len(ctx.node.items) if ctx.node.items is not None else None
             ctx.node.items = None
             ctx.node.seq = None
         return HM.materialize(E, Dn)
